@@ -342,9 +342,14 @@ type acct struct {
 	CodeHash []byte
 }
 
+type leaf struct {
+	raw []byte
+	a   acct
+}
+
 type snapshot struct {
 	root   common.Hash
-	leaves map[string][]byte // keccak(address) -> RLP(account)
+	leaves map[string]*leaf // keccak(address) -> account leaf (raw RLP + decoded)
 	sum    *big.Int
 }
 
@@ -355,22 +360,36 @@ func decodeAcct(b []byte) (acct, error) {
 }
 
 // observe finalises the state (exactly what ApplyTransaction / the next IntermediateRoot do) and
-// reads all accounts back from the trie.
-func observe(st *state.StateDB) (*snapshot, error) {
-	s := &snapshot{leaves: map[string][]byte{}, sum: new(big.Int)}
+// reads ALL accounts back from the trie. ref (may be nil) only saves decoding work: a leaf whose raw
+// bytes equal the leaf of ref under the same key shares its decoded form.
+func observe(st *state.StateDB, ref *snapshot) (*snapshot, error) {
+	s := &snapshot{leaves: map[string]*leaf{}, sum: new(big.Int)}
+	if ref != nil {
+		s.leaves = make(map[string]*leaf, len(ref.leaves)+4)
+	}
 	s.root = st.IntermediateRoot(true)
 	var derr error
 	err := st.VerifC09AccountLeaves(func(hk, pre, val []byte) {
-		s.leaves[string(hk)] = val
-		a, e := decodeAcct(val)
-		if e != nil {
-			derr = fmt.Errorf("account %x does not decode: %v", hk, e)
-			return
+		var l *leaf
+		if ref != nil {
+			if o, ok := ref.leaves[string(hk)]; ok && string(o.raw) == string(val) {
+				l = o
+			}
 		}
-		if a.Balance.Sign() < 0 {
-			derr = fmt.Errorf("account %x has a negative balance", hk)
+		if l == nil {
+			a, e := decodeAcct(val)
+			if e != nil {
+				derr = fmt.Errorf("account %x does not decode: %v", hk, e)
+				return
+			}
+			if a.Balance == nil || a.Balance.Sign() < 0 {
+				derr = fmt.Errorf("account %x has a negative balance", hk)
+				return
+			}
+			l = &leaf{raw: val, a: a}
 		}
-		s.sum.Add(s.sum, a.Balance)
+		s.leaves[string(hk)] = l
+		s.sum.Add(s.sum, l.a.Balance)
 	})
 	if err != nil {
 		return nil, err
@@ -379,12 +398,11 @@ func observe(st *state.StateDB) (*snapshot, error) {
 }
 
 func (s *snapshot) get(a common.Address) acct {
-	b, ok := s.leaves[string(crypto.Keccak256(a[:]))]
+	l, ok := s.leaves[string(crypto.Keccak256(a[:]))]
 	if !ok {
 		return acct{Balance: new(big.Int)}
 	}
-	ac, _ := decodeAcct(b)
-	return ac
+	return l.a
 }
 
 func (s *snapshot) has(a common.Address) bool {
@@ -396,7 +414,7 @@ func (s *snapshot) has(a common.Address) bool {
 func diff(a, b *snapshot) []string {
 	var d []string
 	for k, v := range a.leaves {
-		if w, ok := b.leaves[k]; !ok || string(w) != string(v) {
+		if w, ok := b.leaves[k]; !ok || (w != v && string(w.raw) != string(v.raw)) {
 			d = append(d, k)
 		}
 	}
@@ -414,10 +432,10 @@ func describeDiff(a, b *snapshot) string {
 	for _, k := range diff(a, b) {
 		x, y := acct{Balance: new(big.Int)}, acct{Balance: new(big.Int)}
 		if v, ok := a.leaves[k]; ok {
-			x, _ = decodeAcct(v)
+			x = v.a
 		}
 		if v, ok := b.leaves[k]; ok {
-			y, _ = decodeAcct(v)
+			y = v.a
 		}
 		out = append(out, fmt.Sprintf("%s: balance %v->%v nonce %d->%d storage-changed=%v code-changed=%v", w.nameOf(k), x.Balance, y.Balance,
 			x.Nonce, y.Nonce, x.Root != y.Root, string(x.CodeHash) != string(y.CodeHash)))
